@@ -44,6 +44,7 @@ struct fs_state
     std::vector<fs_op> log;
     std::map<int, std::string> fds;       // tracked descriptors
     std::map<int, bool> append;           // descriptor opened in append mode
+    std::map<int, std::string> dirfds;    // descriptors of directories (opened to be synced)
     long kill_at = -1;                    // operation index at which the process is killed
     long kill_bytes = 0;                  // for a write: bytes that reach the file before the kill
     bool offset_mismatch = false;
@@ -130,9 +131,6 @@ inline FILE* vf_fopen_common(char const* name, char const* path, char const* mod
     return f;
 }
 
-FILE* fopen(char const* path, char const* mode) { return vf_fopen_common("fopen", path, mode); }
-FILE* fopen64(char const* path, char const* mode) { return vf_fopen_common("fopen64", path, mode); }
-
 int fclose(FILE* f)
 {
     auto real = vf::fs_real<int (*)(FILE*)>("fclose");
@@ -152,6 +150,19 @@ inline int vf_open_common(char const* name, char const* path, int flags, mode_t 
 {
     auto real = vf::fs_real<int (*)(char const*, int, ...)>(name);
     if (!vf::fs_tracked(path)) return real(path, flags, mode);
+    {
+        // a directory opened for fsync is no file of the model: the descriptor is tracked (so that the sync is a
+        // logged kill point) but the open creates nothing
+        struct stat st;
+        if ((flags & O_DIRECTORY) || (::stat(path, &st) == 0 && S_ISDIR(st.st_mode)))
+        {
+            vf::fs_before(false);
+            int const dfd = real(path, flags, mode);
+            vf::fs_op op; op.kind = vf::fs_open; op.path = path; op.failed = true; vf::fs().log.push_back(op);   // no effect on the modelled files
+            if (dfd >= 0) vf::fs().dirfds[dfd] = path;
+            return dfd;
+        }
+    }
     vf::fs_before(false);
     int const fd = real(path, flags, mode);
     if (fd >= 0)
@@ -179,12 +190,30 @@ int open64(char const* path, int flags, ...)
     return vf_open_common("open64", path, flags, mode);
 }
 
+int openat(int dirfd, char const* path, int flags, ...)
+{
+    mode_t mode = 0;
+    if (flags & (O_CREAT | O_TMPFILE)) { va_list ap; va_start(ap, flags); mode = va_arg(ap, mode_t); va_end(ap); }
+    if (dirfd == AT_FDCWD || (path && path[0] == '/')) return vf_open_common("open", path, flags, mode);
+    if (vf::fs().active && vf::fs().dirfds.count(dirfd)) vf::fs().offset_mismatch = true;   // relative to a tracked directory: not modelled
+    return vf::fs_real<int (*)(int, char const*, int, ...)>("openat")(dirfd, path, flags, mode);
+}
+
 int creat(char const* path, mode_t mode) { return vf_open_common("open", path, O_CREAT | O_WRONLY | O_TRUNC, mode); }
 
 int close(int fd)
 {
     auto real = vf::fs_real<int (*)(int)>("close");
     auto& s = vf::fs();
+    if (s.active && s.dirfds.count(fd))
+    {
+        vf::fs_before(false);
+        vf::fs_op op; op.kind = vf::fs_close; op.path = s.dirfds[fd]; op.failed = true;
+        s.dirfds.erase(fd);
+        int const rc = real(fd);
+        s.log.push_back(op);
+        return rc;
+    }
     auto it = s.fds.find(fd);
     if (!s.active || it == s.fds.end()) return real(fd);
     vf::fs_before(false);
@@ -263,6 +292,13 @@ int rename(char const* a, char const* b)
     return rc;
 }
 
+int renameat(int fa, char const* a, int fb, char const* b)
+{
+    if (fa == AT_FDCWD && fb == AT_FDCWD) return rename(a, b);
+    if (vf::fs().active && (vf::fs().dirfds.count(fa) || vf::fs().dirfds.count(fb))) vf::fs().offset_mismatch = true;   // not modelled
+    return vf::fs_real<int (*)(int, char const*, int, char const*)>("renameat")(fa, a, fb, b);
+}
+
 int unlink(char const* a)
 {
     auto real = vf::fs_real<int (*)(char const*)>("unlink");
@@ -309,10 +345,25 @@ int truncate(char const* a, off_t len)
     return rc;
 }
 
+// The process id is an input the harness owns while a scenario runs: code that builds file names from it
+// must behave identically in the logged run and in the killed children.
+pid_t getpid(void)
+{
+    if (vf::fs().active) return 4242;
+    return vf::fs_real<pid_t (*)(void)>("getpid")();
+}
+
 int fsync(int fd)
 {
     auto real = vf::fs_real<int (*)(int)>("fsync");
     auto& s = vf::fs();
+    if (s.active && s.dirfds.count(fd))
+    {
+        vf::fs_before(false);
+        int const rc = real(fd);
+        vf::fs_op op; op.kind = vf::fs_sync; op.path = s.dirfds[fd]; s.log.push_back(op);
+        return rc;
+    }
     auto it = s.fds.find(fd);
     if (!s.active || it == s.fds.end()) return real(fd);
     vf::fs_before(false);
@@ -320,6 +371,56 @@ int fsync(int fd)
     vf::fs_op op; op.kind = vf::fs_sync; op.path = it->second; s.log.push_back(op);
     return rc;
 }
+
+int fdatasync(int fd) { return fsync(fd); }
+
+// C stdio used directly by the code under test: glibc's FILE writes through internal system call wrappers that
+// cannot be interposed, so such a stream is given custom I/O functions (fopencookie) that go through the logged
+// write/close above; glibc's buffering stays as it is.  libstdc++'s file streams call fopen only to get a
+// descriptor (they write with write/writev themselves) and therefore keep the real FILE.
+struct vf_cookie { int fd; };
+inline ssize_t vf_ck_read(void* c, char* buf, size_t n) { return ::read(static_cast<vf_cookie*>(c)->fd, buf, n); }
+inline ssize_t vf_ck_write(void* c, char const* buf, size_t n) { ssize_t const rc = write(static_cast<vf_cookie*>(c)->fd, buf, n); return rc < 0 ? 0 : rc; }
+inline int vf_ck_seek(void* c, off64_t* off, int whence)
+{
+    off64_t const r = ::lseek64(static_cast<vf_cookie*>(c)->fd, *off, whence);
+    if (r < 0) return -1;
+    *off = r;
+    return 0;
+}
+inline int vf_ck_close(void* c) { int const rc = close(static_cast<vf_cookie*>(c)->fd); delete static_cast<vf_cookie*>(c); return rc; }
+
+inline bool vf_called_from_libstdcxx(void* return_address)
+{
+    Dl_info info;
+    return dladdr(return_address, &info) != 0 && info.dli_fname && std::strstr(info.dli_fname, "libstdc++") != nullptr;
+}
+
+inline FILE* vf_fopen_cookie(char const* path, char const* mode)
+{
+    int flags = std::strchr(mode, '+') ? O_RDWR : (mode[0] == 'r' ? O_RDONLY : O_WRONLY);
+    if (mode[0] == 'w') flags |= O_CREAT | O_TRUNC;
+    if (mode[0] == 'a') flags |= O_CREAT | O_APPEND;
+    int const fd = vf_open_common("open", path, flags, 0666);
+    if (fd < 0) return nullptr;
+    cookie_io_functions_t io;
+    io.read = vf_ck_read; io.write = vf_ck_write; io.seek = vf_ck_seek; io.close = vf_ck_close;
+    FILE* const f = fopencookie(new vf_cookie{fd}, mode, io);
+    if (!f) close(fd);
+    return f;
+}
+
+FILE* fopen(char const* path, char const* mode)
+{
+    if (vf::fs_tracked(path) && !vf_called_from_libstdcxx(__builtin_return_address(0))) return vf_fopen_cookie(path, mode);
+    return vf_fopen_common("fopen", path, mode);
+}
+FILE* fopen64(char const* path, char const* mode)
+{
+    if (vf::fs_tracked(path) && !vf_called_from_libstdcxx(__builtin_return_address(0))) return vf_fopen_cookie(path, mode);
+    return vf_fopen_common("fopen64", path, mode);
+}
+
 
 }
 
